@@ -99,7 +99,9 @@ Read(p) ==
   /\ UNCHANGED state
 
 (* attribute assignment through the proxy, at the outer model or on a nested *)
-(* model: always refused                                                    *)
+(* model: always refused.  One Mutate(lv) stands for an assignment to every  *)
+(* field of that level (and of the models nested below it), each with a      *)
+(* value different from the current one: all of them are refused.            *)
 Mutate(lv) ==
   /\ last' = Reply("mutate", lv, "no", "-")
   /\ UNCHANGED state
